@@ -686,6 +686,16 @@ class Evaluator:
                 return StrV("«name»")
             if self.repo.has_method(base.cls, e.attr):
                 return BoundV(self.repo.method(base.cls, e.attr), base)
+            # a class-level constant (tuple of gate names, a default ...): evaluate its defining expression
+            for c_ in self.repo.mro(base.cls):
+                if e.attr in c_.attrs:
+                    dflt = c_.attrs[e.attr]
+                    if isinstance(dflt, ast.Constant) and dflt.value is None:
+                        break  # a placeholder that every instance overwrites in __init__
+                    try:
+                        return self.ev(c_.attrs[e.attr], {}, dict(ctx, mod=self.repo.mods[c_.file]))
+                    except Und:
+                        break
             return PW.of(Rat.atom(f"self.{e.attr}"))
         txt = ast.unparse(e)
         if txt in ("jnp.pi", "np.pi", "math.pi"):
@@ -746,8 +756,39 @@ class Evaluator:
         name = f.attr if isinstance(f, ast.Attribute) else (f.id if isinstance(f, ast.Name) else None)
         if name is None and isinstance(f, ast.Subscript):
             name = "«subscript»"
+        if name is None and isinstance(f, ast.Call):
+            # the callee is itself computed:  getattr(self, f"{gate}_gate")(v)
+            fv = self.ev(f, env, ctx)
+            if isinstance(fv, BoundV):
+                args, kwargs = self.eval_args(e, env, ctx)
+                return self.call(fv.fi, args, kwargs, fv.selfv)
+            raise Und("computed callee")
         if name is None:
             raise Und("callee")
+        if isinstance(f, ast.Name) and f.id in ("zip", "enumerate", "list", "tuple", "reversed") and f.id not in env and \
+                self._resolve_repo(f.id, ctx) is None and e.args and not e.keywords:
+            vals = [self.ev(a_, env, ctx) for a_ in e.args]
+            vals = [tuple(StrV(k) for k in v_) if isinstance(v_, dict) else v_ for v_ in vals]
+            if all(isinstance(v_, tuple) for v_ in vals):
+                if f.id == "zip":
+                    return tuple(tuple(x) for x in zip(*vals))
+                if f.id == "enumerate" and len(vals) == 1:
+                    return tuple((PW.of(Rat.const(i_)), x) for i_, x in enumerate(vals[0]))
+                if f.id in ("list", "tuple") and len(vals) == 1:
+                    return vals[0]
+                if f.id == "reversed" and len(vals) == 1:
+                    return tuple(reversed(vals[0]))
+            if f.id not in self.PRIMS:
+                raise Und(f"call {f.id}")
+        if isinstance(f, ast.Name) and f.id == "getattr" and len(e.args) in (2, 3) and "getattr" not in env:
+            obj = self.ev(e.args[0], env, ctx)
+            nm = self.ev(e.args[1], env, ctx)
+            if isinstance(obj, ObjV) and isinstance(nm, StrV):
+                if nm.s in obj.attrs:
+                    return obj.attrs[nm.s]
+                if self.repo.has_method(obj.cls, nm.s):
+                    return BoundV(self.repo.method(obj.cls, nm.s), obj)
+            raise Und("getattr")
         root = None
         if isinstance(f, ast.Attribute):
             r = f.value
